@@ -1,10 +1,15 @@
 # pip's packaging reference adapter. TSV lines on stdin, one answer per line.
 #   ver | cmp a b | valid a | sat spec v [pre] | spec s | req s | name s | marker m extra(csv or -) 
+#   setenvs json-list-of-envs | markerenvs m  -> one char per env (1/0/U) | reqenvs s -> same for the requirement's marker ('-' if none)
+#   verinfo v -> {"norm","pre"} | spec1 s -> str(Specifier(s)) (one clause, exact)
+#   reqx s -> req plus canonical clause keys and truth over ENVS | speccanon s -> canonical clause keys of SpecifierSet(s)
+#   markerx m [json list of extras] -> {"str", "envs", "truth"} (truth: one char per extra under ENV)
+#   an op written "j:<op>" takes every argument JSON-encoded (strings with tabs)
 import sys, json
 try:
     from pip._vendor import packaging as _p
     from pip._vendor.packaging.version import Version, InvalidVersion
-    from pip._vendor.packaging.specifiers import SpecifierSet, InvalidSpecifier
+    from pip._vendor.packaging.specifiers import SpecifierSet, Specifier, InvalidSpecifier
     from pip._vendor.packaging.requirements import Requirement, InvalidRequirement
     from pip._vendor.packaging.markers import Marker, InvalidMarker, UndefinedComparison, UndefinedEnvironmentName
     from pip._vendor.packaging.utils import canonicalize_name
@@ -12,13 +17,26 @@ try:
 except ImportError:
     import packaging as _p
     from packaging.version import Version, InvalidVersion
-    from packaging.specifiers import SpecifierSet, InvalidSpecifier
+    from packaging.specifiers import SpecifierSet, Specifier, InvalidSpecifier
     from packaging.requirements import Requirement, InvalidRequirement
     from packaging.markers import Marker, InvalidMarker, UndefinedComparison, UndefinedEnvironmentName
     from packaging.utils import canonicalize_name
     SRC = "packaging " + _p.__version__
 
 ENV = None
+ENVS = []
+def envs_truth(m):
+    o = []
+    for e in ENVS:
+        try:
+            o.append('1' if m.evaluate(dict(e)) else '0')
+        except (UndefinedComparison, UndefinedEnvironmentName):
+            o.append('U')
+    return ''.join(o) or '-'
+def canon_clause(sp):
+    # the key packaging itself uses for Specifier equality / hashing
+    o, v = sp._canonical_spec
+    return o + v
 def env(extra):
     e = dict(ENV)
     e["extra"] = extra
@@ -31,6 +49,9 @@ for line in sys.stdin.read().split('\n'):
     p = line.split('\t')
     try:
         op = p[0]
+        if op.startswith('j:'):
+            op = op[2:]
+            p = [op] + [json.loads(x) for x in p[1:]]
         if op == 'ver':
             out.append(SRC)
         elif op == 'cmp':
@@ -65,6 +86,36 @@ for line in sys.stdin.read().split('\n'):
             out.append('1' if m.evaluate(env(extra)) else '0')
         elif op == 'markerstr':
             out.append(str(Marker(p[1])))
+        elif op == 'verinfo':
+            v = Version(p[1]); out.append(json.dumps({"norm": str(v), "pre": bool(v.is_prerelease)}))
+        elif op == 'spec1':
+            out.append(str(Specifier(p[1])))
+        elif op == 'reqx':
+            r = Requirement(p[1])
+            out.append(json.dumps({"name": canonicalize_name(r.name), "extras": sorted(r.extras), "spec": sorted(str(s) for s in r.specifier),
+                                   "canon": sorted(set(canon_clause(s) for s in r.specifier)), "marker": str(r.marker) if r.marker else "",
+                                   "url": r.url or "", "envs": envs_truth(r.marker) if r.marker else "-"}))
+        elif op == 'speccanon':
+            out.append(json.dumps(sorted(set(canon_clause(s) for s in SpecifierSet(p[1])))))
+        elif op == 'markerx':
+            m = Marker(p[1])
+            extras = p[2] if len(p) > 2 else []
+            if isinstance(extras, str):
+                extras = json.loads(extras)
+            truth = []
+            for x in ((extras or ['']) if ENV is not None else []):
+                try:
+                    truth.append('1' if m.evaluate(env(x)) else '0')
+                except (UndefinedComparison, UndefinedEnvironmentName):
+                    truth.append('U')
+            out.append(json.dumps({"str": str(m), "envs": envs_truth(m), "truth": ''.join(truth)}))
+        elif op == 'setenvs':
+            ENVS = json.loads(p[1]) if isinstance(p[1], str) else p[1]; out.append('ok')
+        elif op == 'markerenvs':
+            out.append(envs_truth(Marker(p[1])))
+        elif op == 'reqenvs':
+            r = Requirement(p[1])
+            out.append(envs_truth(r.marker) if r.marker else '-')
         else:
             out.append('?')
     except (InvalidVersion, InvalidSpecifier, InvalidRequirement, InvalidMarker):
